@@ -33,7 +33,7 @@ func (p *C08) Runs(tier string) int {
 	return 2500
 }
 
-var c08Tracks = []int{1, 1, 1, 2, 3, 4, 5, 8, 16, 32, 100, 255, 256, 1000, 65535, 65536, 70000}
+var c08Tracks = []int{1, 1, 1, 2, 3, 4, 5, 8, 16, 32, 100, 255, 256}
 var c08Instruments = []string{"Piano", "", "Organ", "ピアノ", "a b c", "\"q\"", "Ünïcödé ♯♭", "x\ny"}
 var c08BigDegrees = []string{"22", "29", "36", "43", "57", "64", "100", "b64", "#50"}
 
@@ -71,7 +71,17 @@ func (p *C08) Generate(seed uint64, run int) *Case {
 		c.Labels = append(c.Labels, "fault:F6:corrupt")
 	}
 	tracks := model.Pick(r, c08Tracks)
-	if tracks > 256 && len(d.Insts) > 12 {
+	switch {
+	case r.Chance(1, 40):
+		// beyond what the header can declare: must be refused, never written
+		tracks = model.Pick(r, []int{65536, 70000, 131071, 2000000000})
+	case r.Chance(1, 60):
+		tracks = 1000
+	case r.Chance(1, 500):
+		// the largest legal count: legitimate but heavy (N^2 ticks)
+		tracks = 65535
+	}
+	if tracks > 256 && tracks <= 65535 && len(d.Insts) > 12 {
 		tracks = 32
 	}
 	argv := []string{"write"}
